@@ -91,7 +91,9 @@ def build_ops(tmp, rnd):
                 obj = OPS[name](params)
                 st, o = outcome(obj.generate_plates if name in ("seg", "pair", "perm") else obj.smooth_plates, cand.screen(), np.random.default_rng(sd))
                 outs.add(scr_digest(o) if st == "ok" else "raised")
-            if len(outs) > 1 and "raised" not in outs:
+            # the pairwise generator additionally gets single-agent experiments of at least two samples to distribute
+            enough = name != "pair" or len({r_[0] for r_ in cand.rows if not r_[3] and sum(1 for t_ in r_[1] if t_ == 0) == 1}) >= 2
+            if len(outs) > 1 and "raised" not in outs and enough:
                 rs = cand
                 break
         scr0 = rs.screen()
